@@ -123,3 +123,15 @@ package ast
 //@   loop 1: invariant target <= i && i <= source && lnWF(self) && self.size == old(self.size) && same(self.tail, old(self.tail)) && same(n, old(lnAt(self, source)))
 //@   loop 1: invariant forall j int :: (0 <= j && j < self.size) ==> same(lnAt(self, j), old(lnAt(self, ite(j > i && j <= source, j - 1, j))))
 //@   loop 1: decreases i - target
+
+// skipBlank (C05: never reads src[len(src)] or beyond; C02: skips exactly RFC 8259
+// white space): the index of the first non-space byte at or after pos, or -ERR_EOF
+// when only white space remains.
+//@ func skipBlank props C05,C02,C07
+//@   requires 0 <= pos && pos <= len(src)
+//@   ensures result >= 0 ==> (pos <= result && result < len(src) && !utils.isSp(src[result]))
+//@   ensures result >= 0 ==> (forall k int :: (pos <= k && k < result) ==> utils.isSp(src[k]))
+//@   ensures result < 0 ==> (result == -int(types.ERR_EOF) && (forall k int :: (pos <= k && k < len(src)) ==> utils.isSp(src[k])))
+//@   loop 0: invariant ptrlo(sp) + pos <= ptrindex(sp) && ptrindex(sp) <= ptrhi(sp) && ptrhi(sp) == ptrlo(sp) + len(src)
+//@   loop 0: invariant forall k int :: (pos <= k && k < ptrindex(sp) - ptrlo(sp)) ==> utils.isSp(src[k])
+//@   loop 0: decreases ptrhi(sp) - ptrindex(sp)
